@@ -99,10 +99,12 @@ var allOps = []string{"==", "!=", "<", "<=", ">", ">=", "~=", "===", "in", "not 
 
 var (
 	litsVersion = []string{"3.9", "3.8", "3.10", "2.7", "3", "3.9.6", "3.9.6rc1", "3.9.*", "3.9.0", "3.9.7", "4", "3.9.6.post1", "3.9.dev1", "3.*", "abc", "3.9.5", "3.10.0a1"}
+	// alternative PEP 440 spellings of versions (packaging normalises all of them)
+	litsAltVersion = []string{"v3.9", "V3.9", "v3.0", "v3.8", "v3.10", "0!3.9", "1!3.9", "3.9.0", "3.9.6.0", "3.09", "03.9", "3.9rc1", "3.9.6c1", "3.9.post1", "3.9-1", "3.9.6-1", "3.9.dev0", "3.9.6.dev0", " 3.9", "3.9 ", " 3.9.6 ", "3.9.6.RC1", "3.9.6_rc1", "3.9.6.post0", "3.9.6.rev1", "3.9.6a", "3.10.0.alpha1", "3.9.6-rc.1", "v3.9.*", "3.9.6+local"}
 	litsRelease = []string{"6.9.10-1rodete5-amd64", "6.9.10", "5", "6", "amd64", "rodete", "7.0", "6.9.10-1"}
 	litsPlatVer = []string{"SMP", "Debian", "#1", "Ubuntu", "6.9.10", "#1 SMP PREEMPT_DYNAMIC Debian 6.9.10-1rodete5 (2024-09-04)"}
 	litsString  = []string{"linux", "posix", "x86_64", "cpython", "CPython", "Linux", "win32", "nt", "lin", "3.9", "6.9.10", "linux2", "LINUX", "java", "darwin", "x86", "Lin", "cpython3", "a b"}
-	litsAny     = []string{"3.9", "linux", "1.0", "x", "3.9.*", "a'b", "Linux", "posix", "3.9rc1", "a;b", "x]y[", "(z)", "1,2", ";", "<=>!~"}
+	litsAny     = []string{"v3.9", "3.9.0", "0!3.9", "3.9", "linux", "1.0", "x", "3.9.*", "a'b", "Linux", "posix", "3.9rc1", "a;b", "x]y[", "(z)", "1,2", ";", "<=>!~"}
 	litsExtra   = []string{"x", "test", "y", "X", "dev"}
 )
 
@@ -121,6 +123,9 @@ func genLeaf(r *rand.Rand) *M {
 		switch m.Var {
 		case "python_version", "python_full_version", "implementation_version":
 			m.Lit = pick(r, litsVersion...)
+			if r.Intn(4) == 0 {
+				m.Lit = pick(r, litsAltVersion...)
+			}
 		case "platform_release":
 			m.Lit = pick(r, litsRelease...)
 		case "platform_version":
@@ -412,7 +417,7 @@ func run(c *fw.Ctx) {
 		}
 	}
 	// small-scope exhaustive: every variable x operator x literal x side as a single comparison
-	allLits := sortedSet(append(append(append(append(append(append([]string{}, litsVersion...), litsRelease...), litsPlatVer...), litsString...), litsAny...), litsExtra...))
+	allLits := sortedSet(append(append(append(append(append(append(append([]string{}, litsVersion...), litsAltVersion...), litsRelease...), litsPlatVer...), litsString...), litsAny...), litsExtra...))
 	for _, v := range append(append([]string{}, platformVars...), "extra") {
 		for _, op := range allOps {
 			for _, lit := range allLits {
